@@ -1316,6 +1316,11 @@ func stringToTTL(token string) (uint32, bool) {
 		default:
 			return 0, false
 		}
+		// Neither a number nor the sum may leave the 32 bits of a TTL (this
+		// also keeps the arithmetic far away from wrapping around).
+		if i > math.MaxUint32 || s > math.MaxUint32 {
+			return 0, false
+		}
 	}
 	if s+i > math.MaxUint32 {
 		return 0, false
